@@ -117,7 +117,7 @@ def run(tier, seed):
         base = scenarios.run_scenario(H, year, forms, sseed, prof)
         if base['exc'] is not None or not base['ok']:
             continue
-        gate_names = {g['input'] for g in gates_by_year[year]}
+        gate_names = {g['input'] for g in gates_by_year[year] if not g.get('conditional')}   # a conditional gate blocks only in the stated situation
         for (name, ans, nb) in base['policy'].asked:
             key = name.split('.')[0].split(':')[0] + '.' + name.split('.')[1]
             if key not in gate_names or ans != 'no':
